@@ -33,10 +33,10 @@ SAMPLES = {
     "string": ["héllo", "", "😀 x"], "hstr8": ["ab", "", "12345678"],
     "opti32": [("some", -3), None, ("some", 2**31 - 1)], "arr3i16": [[1, -2, 3], [0, 0, 0], [32767, -32768, 5]],
     "unit": [()], "sstruct": [{"a": 1, "b": True}, {"a": 255, "b": False}], "uenum": [("var", 1), ("var", 0), ("var", 2)],
-    "strleaf": [("var", 1), ("var", 0), ("var", 2)],
+    "strleaf": [("var", 1), ("var", 0), ("var", 2), ("var", 3)],
 }
 UENUM = ["Red", "Green", "Blue"]
-STRE = ["Alpha", "Beta", "Gamma"]
+STRE = ["Alpha", "Beta", "Gamma", "alpha"]
 
 
 def rust_expr(ty, v):
